@@ -258,6 +258,24 @@ pub fn families() -> Vec<Box<dyn Family>> {
             },
         ),
         family(
+            "distinct_boundary",
+            "texts of n DISTINCT lines with n just below 256 / 1000 / 1024 / 2048 / 4096 / 8192 / 32768 / 65536 where the new text swaps a block for fresh lines (distinct tokens on both sides together cross the boundary) x {lines, words} x {Myers, Patience}",
+            true,
+            1,
+            |cfg| if cfg.tiny { 1 } else { cfg.tier.pick(16, 48) },
+            |idx, cfg, out| {
+                let mut rng = Rng::for_case(cfg.seed, "c04.distinct_boundary", idx);
+                let bound = if cfg.tiny { 8 } else { text_gen::BOUNDARIES[(idx % 8) as usize] };
+                let n = bound - 1 - rng.below(bound.min(400) / 4 + 1);
+                let fresh = rng.range(bound - n + 1, (bound - n + 1) + bound.min(900));
+                let drop = rng.below(200.min(n));
+                let (a, b) = text_gen::distinct_lines_pair(&mut rng, n, drop, fresh);
+                out.sample(|| format!("{} distinct old lines, {} fresh new lines (boundary {})", n, fresh, bound));
+                out.nontrivial(&(&a, &b));
+                long_case(&a, &b, out);
+            },
+        ),
+        family(
             "constructors",
             "TextDiff::from_lines/from_words/from_chars/from_unicode_words/from_graphemes/from_slices are the default-configured builder: same changes as TextDiff::configure().diff_*; G-TXT pairs x {str,[u8]}",
             false,
